@@ -240,7 +240,7 @@ func ruleSingleOutcome(c *Ctx, rule string) {
 	for _, cl := range closesOfField(fn, done) {
 		pubs = append(pubs, cl)
 	}
-	pubs = append(pubs, c.targetStores(fn, "trailersTargets")...)
+	pubs = append(pubs, c.targetStores(fn, c.W.Roles().TrailersTargets)...)
 	c.floor(rule, len(pubs), 3, "publication instructions in the finishing function (trailer store, target store, close(doneSignal))")
 	for _, p := range pubs {
 		g, why := c.casGuard(p, a.CSDone, 0)
@@ -307,7 +307,7 @@ func rulePublishBeforeWake(c *Ctx, rule string) {
 	for _, st := range storesToField(fn, tr) {
 		pubs = append(pubs, st)
 	}
-	pubs = append(pubs, c.targetStores(fn, "trailersTargets")...)
+	pubs = append(pubs, c.targetStores(fn, c.W.Roles().TrailersTargets)...)
 	c.floor(rule, len(pubs), 2, "trailer publication stores")
 	for _, p := range pubs {
 		c.check(reaches(p, cd) && !reaches(cd, p), rule, "publication before the signal: "+instrKind(p), w.At(p), "executes before close(doneSignal), never after", "this trailer publication can execute after close(doneSignal): Trailer() / the grpc.Trailer target is read by the caller while it is still being written")
@@ -323,7 +323,7 @@ func rulePublishBeforeWake(c *Ctx, rule string) {
 			return
 		}
 		m := call.Common().Method.Name()
-		if m != "close" && m != "cancel" {
+		if m != w.mName("close") && m != w.mName("cancel") {
 			return
 		}
 		if fr, _, ok := loadedField(call.Common().Value); !ok || fr.Type != a.CS.Obj().Name() {
@@ -401,12 +401,12 @@ func ruleHeaderPublication(c *Ctx, rule string) {
 					c.check(dominates(st, cl) && !reaches(cl, st), rule, key+": headers stored before the signal", w.At(st), "store dominates close", "headers are stored after (or not on every path before) the signal: Header() returns nil/stale metadata")
 					// value = fromProto(frame.ResponseHeaders)
 					d := desc(st.Val)
-					c.check(strings.Contains(d, "fromProto(") && strings.HasSuffix(d, ".ResponseHeaders)"), rule, key+": stores the frame's headers", w.At(st), d, "the stored headers are "+d+", expected fromProto(frame.ResponseHeaders)")
+					c.check(w.isConvOfField(st.Val, "fromProto", "ResponseHeaders"), rule, key+": stores the frame's headers", w.At(st), d, "the stored headers are "+d+", expected fromProto(frame.ResponseHeaders)")
 				}
-				for _, ts := range c.targetStores(fn, "headersTargets") {
+				for _, ts := range c.targetStores(fn, w.Roles().HeadersTargets) {
 					c.check(reaches(ts, cl) && !reaches(cl, ts), rule, key+": grpc.Header targets filled before the signal", w.At(ts), "target store precedes close", "a grpc.Header target is written after the signal")
 				}
-				c.floor(rule, len(c.targetStores(fn, "headersTargets")), 1, "grpc.Header target stores")
+				c.floor(rule, len(c.targetStores(fn, w.Roles().HeadersTargets)), 1, "grpc.Header target stores")
 			}
 		}
 	}
@@ -442,7 +442,7 @@ func ruleStatusFlow(c *Ctx, rule string) {
 		tv := e.Payload["CloseStream.ResponseTrailers"]
 		okT := false
 		if call, isCall := origin(tv).(*ssa.Call); isCall {
-			if f := staticCallee(call); f != nil && f.Name() == "toProto" {
+			if w.isRoleCall(call, "toProto") {
 				if fr, _, isF := loadedField(origin(call.Call.Args[0])); isF && fr.Type == a.SS.Obj().Name() && strings.Contains(strings.ToLower(fr.Field), "trailer") {
 					okT = true
 				}
@@ -536,7 +536,7 @@ func ruleStatusFlow(c *Ctx, rule string) {
 			r1, ch1 := fieldChain(firstArgOfInner(call.Call.Args[1], "google.golang.org/grpc/status.FromProto"))
 			var r2 ssa.Value
 			var ch2 []string
-			if c2, ok := origin(call.Call.Args[2]).(*ssa.Call); ok && staticCallee(c2) != nil && staticCallee(c2).Name() == "fromProto" {
+			if c2, ok := origin(call.Call.Args[2]).(*ssa.Call); ok && w.isRoleCall(c2, "fromProto") {
 				r2, ch2 = fieldChain(c2.Call.Args[0])
 			}
 			good := len(ch1) == 2 && ch1[0] == "CloseStream" && ch1[1] == "Status" && len(ch2) == 2 && ch2[0] == "CloseStream" && ch2[1] == "ResponseTrailers" && r1 == r2 && strings.Contains(d1, ").Err(")
@@ -643,7 +643,11 @@ func (c *Ctx) checkFinishMapping(rule string) {
 		val := desc(v)
 		if call, ok := stripConv(v).(*ssa.Call); ok && calleeName(call) == "google.golang.org/grpc/status.Error" {
 			k, _ := constInt(call.Call.Args[0])
-			val = fmt.Sprintf("status.Error(code %d, %s)", k, desc(call.Call.Args[1]))
+			msg := desc(call.Call.Args[1])
+			if mc, isC := call.Call.Args[1].(*ssa.Call); isC && mc.Call.IsInvoke() && mc.Call.Method.Name() == "Error" && stripConv(mc.Call.Value) == ssa.Value(errP) {
+				msg = "err.Error()"
+			}
+			val = fmt.Sprintf("status.Error(code %d, %s)", k, msg)
 		}
 		if stripConv(v) == ssa.Value(errP) {
 			val = "unchanged"
@@ -659,8 +663,8 @@ func (c *Ctx) checkFinishMapping(rule string) {
 	}
 	want := map[string]string{
 		"nil":                      "*global:EOF",
-		"context.DeadlineExceeded": "status.Error(code 4, param:err.Error())",
-		"context.Canceled":         "status.Error(code 1, param:err.Error())",
+		"context.DeadlineExceeded": "status.Error(code 4, err.Error())",
+		"context.Canceled":         "status.Error(code 1, err.Error())",
 		"else":                     "unchanged",
 	}
 	got := map[string]string{}
@@ -749,7 +753,7 @@ func ruleMetadataAccumulation(c *Ctx, rule string) {
 		n++
 		v := e.Payload["ResponseHeaders"]
 		ok := false
-		if call, isCall := origin(v).(*ssa.Call); isCall && staticCallee(call) != nil && staticCallee(call).Name() == "toProto" {
+		if call, isCall := origin(v).(*ssa.Call); isCall && w.isRoleCall(call, "toProto") {
 			if fr, _, isF := loadedField(origin(call.Call.Args[0])); isF && fr.Type == a.SS.Obj().Name() && strings.Contains(strings.ToLower(fr.Field), "header") {
 				ok = true
 			}
@@ -759,7 +763,7 @@ func ruleMetadataAccumulation(c *Ctx, rule string) {
 	c.floor(rule, n, 2, "response_headers emit sites")
 	// converters
 	for _, name := range []string{"toProto", "fromProto"} {
-		fn := w.Func(name)
+		fn := w.roleFunc(name)
 		if fn == nil {
 			c.fail(rule, "converter "+name, "-", "not found")
 			continue
@@ -773,7 +777,7 @@ func ruleMetadataAccumulation(c *Ctx, rule string) {
 		}
 		v := e.Payload["NewStream.RequestHeaders"]
 		ok := false
-		if call, isCall := origin(v).(*ssa.Call); isCall && staticCallee(call) != nil && staticCallee(call).Name() == "toProto" {
+		if call, isCall := origin(v).(*ssa.Call); isCall && w.isRoleCall(call, "toProto") {
 			if ex, isEx := origin(call.Call.Args[0]).(*ssa.Extract); isEx {
 				if ac, isC := ex.Tuple.(*ssa.Call); isC && staticCallee(ac) == a.Allocate {
 					ok = true
@@ -864,7 +868,7 @@ func ruleMetadataAccumulation(c *Ctx, rule string) {
 			c.fail(rule, w.Short(fn)+": request metadata installed", w.Pos(fn.Pos()), "metadata.NewIncomingContext is never called in the creation function")
 		} else {
 			d := desc(nic.Call.Args[1])
-			c.check(strings.Contains(d, "fromProto(") && strings.HasSuffix(d, ".RequestHeaders)"), rule, w.Short(fn)+": installs the frame's request headers", w.At(nic), d, "NewIncomingContext is given "+d+", expected fromProto(frame.RequestHeaders)")
+			c.check(w.isConvOfField(nic.Call.Args[1], "fromProto", "RequestHeaders"), rule, w.Short(fn)+": installs the frame's request headers", w.At(nic), d, "NewIncomingContext is given "+d+", expected fromProto(frame.RequestHeaders)")
 			c.check(dominates(nic, ins), rule, w.Short(fn)+": installed unconditionally", w.At(nic), "dominates the table insert", "the request metadata is installed only on some paths: an RPC without metadata would inherit the tunnel-opening call's incoming metadata")
 		}
 	}
@@ -1125,7 +1129,7 @@ func ruleNilMapWrite(c *Ctx, rule string) {
 func ruleStringTaint(c *Ctx, rule string) {
 	c.rule(rule, "application-controlled metadata values (which gRPC allows to be arbitrary bytes for -bin keys) must not reach a proto3 string field of an emitted frame without passing a UTF-8 validator or encoder")
 	w := c.W
-	fn := w.Func("toProto")
+	fn := w.roleFunc("toProto")
 	if fn == nil {
 		c.fail(rule, "metadata converter", "-", "toProto not found")
 		return
